@@ -36,8 +36,14 @@ namespace {
    };
    const char* name_text[] = { "a", "b", "operator+" };
 
+   // The second (or transient) Lexicon of an execution is not byte-for-byte the twin of the first: it starts by interning a word of its
+   // own, so that whatever it writes lands at other offsets than the first one's (two Lexicons sharing storage they should not
+   // share overwrite each other with DIFFERENT bytes, not with the same ones).
+   bool other_world = false;
+   struct Salted { explicit Salted(ipr::impl::Lexicon& l) { if (other_world) { (void) l.get_identifier(u8"the-other-lexicon-was-here"); (void) l.get_string(u8"0123456789-other"); } } };
    struct World {
       ipr::impl::Lexicon lex;
+      Salted salted{ lex };
       ipr::impl::Translation_unit unit{ lex };
       ipr::impl::Region* region;
       ipr::impl::Scope* scope;
@@ -155,7 +161,7 @@ namespace {
       std::vector<Entry> model;
       std::unique_ptr<World> second;
       std::vector<Entry> model2;
-      if (h.twin == 1) second = std::make_unique<World>();
+      if (h.twin == 1) { other_world = true; second = std::make_unique<World>(); other_world = false; }
       int step = 0;
       for (int p : h.pairs) {
          Kind k = assignment[h.assign][p / 3][p % 3];
@@ -171,7 +177,9 @@ namespace {
             model2.push_back({ p / 3, p % 3, k, d2 });
          }
          if (h.twin == 2) {
+            other_world = true;
             World t;
+            other_world = false;
             std::vector<Entry> mt;
             for (int j = 0; j <= step; ++j) {
                const int pj = h.pairs[std::size_t(j)];
